@@ -163,5 +163,14 @@ fn main() {
         let n = verdict.matches(text.lines().next().unwrap_or("<none>")).count();
         println!("post\tp-during-unwind\t{}\t{}\t{}", if n >= 2 { "remembered" } else { "forgotten" }, text.lines().next().unwrap_or(""), format!("{} occurrence(s) in: {}", n, verdict.lines().next().unwrap_or("")));
     }
+    {
+        use unimock::mock::std::process::TerminationMock;
+        let u = Unimock::new((MsgMock::a1.each_call(matching!(1)).returns(1u32).at_least_times(0), TerminationMock::report.each_call(matching!()).returns(std::process::ExitCode::from(3)).at_least_times(0)));
+        let text = caught(|| { u.a1(9); });
+        // report() answered by the clause hands back the scripted code; the instance is then dropped and verifies: the remembered error surfaces there
+        let verdict = caught(move || { let _ = std::process::Termination::report(u); });
+        let ok = verdict.contains(text.lines().next().unwrap_or("<none>"));
+        println!("post\tp-mocked-report\t{}\t{}\t{}", if ok { "remembered" } else { "forgotten" }, text.lines().next().unwrap_or(""), verdict.lines().next().unwrap_or(""));
+    }
     post("p-order", Unimock::new((MsgMock::a1.next_call(matching!(1)).returns(1u32), MsgMock::a2.next_call(matching!(2, "b")).returns(2u32))), &|u| { u.a2(2, "b"); });
 }
